@@ -429,5 +429,9 @@ func TestVerif_eventstreamrace(t *testing.T) {
 	if verifrt.Thorough() {
 		n = 8000
 	}
+	// yield points inserted into event_stream.go (vinstr) run in the lock-free fuzz mode: they widen the windows between
+	// the stream's critical sections without adding happens-before edges that would hide a race from the detector
+	verifrt.Begin(verifrt.ModeFuzzFree, verifrt.Seed(), 0)
+	defer verifrt.End()
 	vfRunESCases(t, R, "eventstreamrace", n)
 }
